@@ -2,6 +2,8 @@ package props
 
 import (
 	"fmt"
+	"go/ast"
+	"go/constant"
 	"strings"
 
 	"czcheck/an"
@@ -16,7 +18,7 @@ func init() {
 		Explanation: "Decides the decision structure and write discipline of logging, not the well-formedness of records for arbitrary bytes: R1 (incl. the precedence interruption status > would-be status > response status, under no other condition) the audit writer is invoked from exactly one call site (ProcessLogging), outside any loop, dominated by AuditEngine != Off, and under RelevantOnly the status tested is the interruption's, else the would-be interruption's, else the response status; " +
 			"R1 also: ctl:auditEngine stores the parsed mode under no other condition (any phase, logging included); R2 the error callback has one call site, guarded by callback != nil and the rule's Log flag; fired rules are appended to matchedRules only in MatchRule; the transaction's audit flag is raised only from the fired rule's Audit flag and reset for every transaction; " +
 			"R3 the audit record lists a fired rule's messages only under its Audit flag; R4 writers: the native formatter's section boundary is a fresh random string that does not depend on the record; the serial writer emits each record with a single Println on the shared logger (one atomic line), the concurrent writer uses its index logger only under its mutex, the JSON formatter returns json.Marshal's output unmodified; " +
-			"R5 the logging actions write the documented flags (C09.R4); R6 audit-part modification rejects A and Z and rebuilds the part list in canonical order.",
+			"R5 the logging actions write the documented flags (C09.R4); R6 audit-part modification rejects A and Z and rebuilds the part list in canonical order. R3 also: the loops of AuditLog over the fired rules and over the match data of a rule have no exit from inside.",
 		NotDecided: []string{
 			"well-formedness of a record for arbitrary byte content (native format boundaries, JSON escaping by encoding/json)",
 			"the full decision table of engine mode x status x flags beyond the listed guards",
@@ -181,6 +183,25 @@ func runC19(c *an.Ctx) {
 			}})
 			c.Check(w == nil, "R2", "newTransaction resets Transaction."+fld, nt.Pos(), "on every path", "a pooled transaction keeps the previous transaction's "+fld+": it would be audited (or report fired rules) for something it did not do")
 		}
+	}
+
+	// ---- R3 (loops) the record lists every audit-enabled fired rule: the loops of AuditLog over the fired rules and
+	// over the match data of one rule are never left from inside (a rule that is not audit-enabled is passed over
+	// with continue; a break drops every fired rule after it from parts K and H)
+	if al := c.Fn("R3", "internal/corazawaf.(*Transaction).AuditLog"); al != nil {
+		nL := 0
+		seenO := map[string]int{}
+		for _, li := range an.Loops(al) {
+			over := tempName.ReplaceAllString(li.Over, "")
+			if !strings.Contains(over, "matchedRules") && !strings.Contains(over, "MatchedDatas()") {
+				continue
+			}
+			nL++
+			seenO[over]++
+			key := fmt.Sprintf("AuditLog: loop over %s #%d is complete", over, seenO[over])
+			c.Check(!li.EarlyExit, "R3", key, li.Pos.Pos(), "no exit from inside the loop body", "the loop over "+over+" can be left before its last element: the fired rules (or match data) after that point are missing from the audit record")
+		}
+		c.MinCount("R3", "loops of AuditLog over fired rules and their match data", nL, 2)
 	}
 
 	// ---- R3
@@ -348,6 +369,42 @@ func runC19(c *an.Ctx) {
 			}
 		}
 		c.Check(okOrd, "R6", "ApplyAuditLogParts rebuilds the list in canonical order", ap.Pos(), "append inside the loop over orderedAuditLogParts", "the modified part list is not rebuilt by walking orderedAuditLogParts: parts could come out in map order")
+		// the mandatory parts survive a relative modification: the rebuilt list can contain 'A' and 'Z', either
+		// because the table it is rebuilt from lists them or because they are appended explicitly.  Without them a
+		// native record written after ctl:auditLogParts=+E has no header section (no transaction id) and no end marker.
+		canEmit := map[int64]bool{}
+		if g := c.P.Pkg("types"); g != nil {
+			for _, f := range g.Syntax {
+				ast.Inspect(f, func(n ast.Node) bool {
+					vs, ok := n.(*ast.ValueSpec)
+					if !ok || len(vs.Names) != 1 || vs.Names[0].Name != "orderedAuditLogParts" || len(vs.Values) != 1 {
+						return true
+					}
+					if cl, ok := vs.Values[0].(*ast.CompositeLit); ok {
+						for _, e := range cl.Elts {
+							if tv, ok := g.TypesInfo.Types[e]; ok && tv.Value != nil {
+								if k, ok := constant.Int64Val(tv.Value); ok {
+									canEmit[k] = true
+								}
+							}
+						}
+					}
+					return true
+				})
+			}
+		}
+		an.Instrs(ap, func(in ssa.Instruction) {
+			if !an.IsBuiltinCall(in, "append") {
+				return
+			}
+			for d := range an.Deps(an.CallOf(in).Args[1]) {
+				if k, ok := an.ConstInt(d); ok {
+					canEmit[k] = true
+				}
+			}
+		})
+		c.Check(canEmit['A'] && canEmit['Z'], "R6", "ApplyAuditLogParts keeps the mandatory parts A and Z of its base", ap.Pos(), "the rebuilt list can contain 'A' and 'Z'",
+			"the list rebuilt after a +X/-X modification is drawn from a table without 'A' and 'Z' and they are not appended either: after ctl:auditLogParts=+E the native record has no header section (transaction id) and no end marker")
 	}
 }
 
